@@ -96,6 +96,13 @@ def c08_stages(tier):
     return [ptfs_stage("C08", 2_000 if tier == "quick" else 120_000, timeout=2400, crash_is_violation=True)]
 
 
+def c09_stages(tier):
+    if tier == "quick":
+        return [ptfs_stage("C09", 480, timeout=1200, crash_is_violation=True, args={"stress": 4, "walks": 12})]
+    return [ptfs_stage("C09", 24_000, timeout=3000, crash_is_violation=True, args={"stress": 120, "walks": 40}),
+            ptfs_stage("C09", 0, name="tsan", kind="tsan", timeout=3000, shards=4, args={"stress": 120})]
+
+
 def c15_stages(tier):
     return [ptfs_stage("C15", 4_000 if tier == "quick" else 150_000, timeout=2400, crash_is_violation=True)]
 
@@ -283,6 +290,23 @@ PROPS = {
                       "may be reused). Host-inode identity comes from attr.ino of the replies.",
         "rule": "evaluations = history steps; distinct = (operation, configuration, number of multiply-referenced inodes).",
         "assumptions": ["ext4 scratch directory, running as root"],
+    },
+    "C09": {
+        "level": "exploration",
+        "stages": c09_stages,
+        "floor": 300,
+        "technique": "runtime monitoring with schedule control: worker threads park at cfg-guarded yield points in do_lookup/forget and a controller picks who "
+                     "runs next (exhaustive DFS for 2 threads, random walks for 3), sequential-model oracle; free-running stress with injected delays; TSan",
+        "level_text": "2-3 threads issue lookup (through either hard-link name, each followed at once by GETATTR on the returned number), forget of the references "
+                      "the client already held, and readdirplus on one file of a real PassthroughFs. Yield points sit before the first probe, after a probe "
+                      "hit, between the refcount load and the compare-exchange, before taking the map write lock, and before forget takes it - all outside "
+                      "lock-held regions. For 2-thread programs every interleaving of these points is executed (stateless DFS); 3-thread programs get random "
+                      "walks; a stress mode runs 4-12 free threads with random yields/spins/sleeps at the same points (and under ThreadSanitizer in the "
+                      "thorough tier). Oracle: all lookups return one number, GETATTR after a lookup succeeds, final count = initial + delivered - forgotten.",
+        "level_note": "Interleavings are controlled at hook granularity (the steps between lock acquisitions and atomics); instruction-level and weak-memory "
+                      "effects are left to stress + TSan. A watchdog turns a stuck schedule into 'inconclusive'.",
+        "rule": "evaluations = schedules executed (+ stress rounds); distinct = distinct (program, sequence of (thread, yield point)) interleavings observed.",
+        "assumptions": ["a parked thread holds no lock (hooks are outside critical sections)"],
     },
     "C15": {
         "level": "fault_enumeration",
